@@ -220,8 +220,8 @@ for _unit in ("second", "minute", "hour", "day", "week"):
     CONTRACTS["d3_time.d3_time_interval.range@%s_step1" % _unit] = dict(
         props=["C17", "C16", "C18"], inline=True, setup=interval_setup(_unit), func_alias="d3_time.d3_time_interval.range", heap=True,
         params={"t0": "dt_ms", "t1": "dt", "dt": "int"}, requires=["in_range_us(t0)", "in_range_us(t1)", "dt == 1"], callee_contracts=_ceil_summary(_unit),
-        slist_locals={"times": "slist:dt"}, modifies=["list.len.dt", "list.elems.dt"], allocates=["list"],
-        loops={1: {"modifies": ["list.len.dt", "list.elems.dt"], "locals": {"time": "dt"},
+        slist_locals={"times": "slist:dt"}, modifies=["list.len.dt", "list.elems.dt", "list.$pos.dt"], allocates=["list"],
+        loops={1: {"modifies": ["list.len.dt", "list.elems.dt", "list.$pos.dt"], "locals": {"time": "dt"},
                    "inv": [("list", "times is not None and len(times) >= 0"),
                            ("boundary", B_time),
                            ("arithmetic_progression", "us(time) == us(time__0) + len(times) * %d" % L),
@@ -240,8 +240,8 @@ for _unit in ("second", "minute", "hour", "day", "week"):
             props=["C17", "C16", "C18"], inline=True, setup=interval_setup(_unit), func_alias="d3_time.d3_time_interval.range", heap=True,
             params={"t0": "dt_ms", "t1": "dt", "dt": "int"}, requires=["in_range_us(t0)", "in_range_us(t1)", "2 <= dt <= 60"], callee_contracts=_ceil_summary(_unit),
         slice_first=True,
-            slist_locals={"times": "slist:dt"}, modifies=["list.len.dt", "list.elems.dt"], allocates=["list"],
-            loops={0: {"modifies": ["list.len.dt", "list.elems.dt"], "locals": {"time": "dt"},
+            slist_locals={"times": "slist:dt"}, modifies=["list.len.dt", "list.elems.dt", "list.$pos.dt"], allocates=["list"],
+            loops={0: {"modifies": ["list.len.dt", "list.elems.dt", "list.$pos.dt"], "locals": {"time": "dt"},
                        "inv": [("list", "times is not None and len(times) >= 0"),
                                ("boundary", B_time + " and us(time) >= us(time__0)"),
                                ("elements", "forall(lambda k: implies(0 <= k < len(times), us(times[k]) %% %d == %d and us(time__0) <= us(times[k]) < us(time) "
@@ -334,8 +334,8 @@ for _unit, num in _NUMBER2.items():
         props=["C17", "C16", "C18"], inline=True, setup=interval_setup(_unit), func_alias="d3_time.d3_time_interval.range", heap=True,
         params={"t0": "dt_ms", "t1": "dt", "dt": "int"}, requires=["in_range_us(t0)", "in_range_us(t1)", "2 <= dt <= 60"], callee_contracts=_ceil_summary(_unit),
         slice_first=True,
-        slist_locals={"times": "slist:dt"}, modifies=["list.len.dt", "list.elems.dt"], allocates=["list"],
-        loops={0: {"modifies": ["list.len.dt", "list.elems.dt"], "locals": {"time": "dt"},
+        slist_locals={"times": "slist:dt"}, modifies=["list.len.dt", "list.elems.dt", "list.$pos.dt"], allocates=["list"],
+        loops={0: {"modifies": ["list.len.dt", "list.elems.dt", "list.$pos.dt"], "locals": {"time": "dt"},
                    "inv": [("list", "times is not None and len(times) >= 0"),
                            ("boundary", B_time + " and us(time) >= us(time__0)"),
                            ("elements", "forall(lambda k: implies(0 <= k < len(times), us(times[k]) %% %d == %d and us(time__0) <= us(times[k]) < us(time) "
@@ -364,7 +364,7 @@ for _unit, _c in _CAL.items():
     _common = dict(
         props=["C17", "C16", "C18"], inline=True, setup=interval_setup(_unit), func_alias="d3_time.d3_time_interval.range", heap=True,
         params={"t0": "dt_ms", "t1": "dt", "dt": "int"}, slist_locals={"times": "slist:dt"},
-        modifies=["list.len.dt", "list.elems.dt"], allocates=["list"], callee_contracts=_cal_ceil_summary(_unit), slice_first=True)
+        modifies=["list.len.dt", "list.elems.dt", "list.$pos.dt"], allocates=["list"], callee_contracts=_cal_ceil_summary(_unit), slice_first=True)
     _inv_common = [("list", "times is not None and len(times) >= 0"),
                    ("boundary", "%s(time)" % B),
                    ("lemma", "lemma_year_monotone(t0, time__0) and lemma_year_monotone(time, t1) and lemma_year_monotone(time__0, time)"),
@@ -375,7 +375,7 @@ for _unit, _c in _CAL.items():
         # thorough tier only: one loop obligation needed 6-18 s over repeated runs (1000+ calendar facts on the path) - too
         # close to the quick tier's 10 s stages to be stable there
         _common, slice_first=False, thorough_tier_only=True, requires=["in_range_years(t0)", "in_range_years(t1)", "dt == 1"],
-        loops={1: {"modifies": ["list.len.dt", "list.elems.dt"], "locals": {"time": "dt"},
+        loops={1: {"modifies": ["list.len.dt", "list.elems.dt", "list.$pos.dt"], "locals": {"time": "dt"},
                    "inv": _inv_common + [
                        ("progression", "%s(time) == %s(time__0) + len(times)" % (IDX, IDX)),
                        ("elements", "forall(lambda k: implies(0 <= k < len(times), %s(times[k]) and %s(times[k]) == %s(time__0) + k "
@@ -390,7 +390,7 @@ for _unit, _c in _CAL.items():
                  ("strictly_increasing", "forall(lambda k: implies(1 <= k < len(result), us(result[k - 1]) < us(result[k])))")])
     CONTRACTS["d3_time.d3_time_interval.range@%s_skip" % _unit] = dict(
         _common, requires=["in_range_years(t0)", "in_range_years(t1)", "2 <= dt <= 60"],
-        loops={0: {"modifies": ["list.len.dt", "list.elems.dt"], "locals": {"time": "dt"},
+        loops={0: {"modifies": ["list.len.dt", "list.elems.dt", "list.$pos.dt"], "locals": {"time": "dt"},
                    "inv": _inv_common + [
                        ("elements", "forall(lambda k: implies(0 <= k < len(times), %s(times[k]) and %s(times[k]) >= %s(time__0) "
                                     "and us(times[k]) < us(t1) and (%s) %% dt == 0))" % (B, IDX, IDX, NUM % "times[k]"))]}},
@@ -448,7 +448,7 @@ SPECFUNS.update({"unit_boundary": unit_boundary, "unit_number": unit_number})
 # (the clause texts differ per unit only through the boundary predicate and the unit number):
 RANGE_SUMMARY = {"d3_time.d3_time_interval.range": {
     "requires": [("start_in_range", "in_range_us(t0)"), ("stop_in_range", "in_range_us(t1)"), ("step", "1 <= dt <= 60")],
-    "modifies": ["list.len.dt", "list.elems.dt"], "allocates": ["list"], "returns": "slist:dt",
+    "modifies": ["list.len.dt", "list.elems.dt", "list.$pos.dt"], "allocates": ["list"], "returns": "slist:dt",
     "ensures": ["forall(lambda k: implies(0 <= k < len(result), unit_boundary(self, result[k]) and us(t0) <= us(result[k]) < us(t1)))",
                 "forall(lambda k: implies(1 <= k < len(result), us(result[k - 1]) < us(result[k])))",
                 "implies(dt > 1, forall(lambda k: implies(0 <= k < len(result), unit_number(self, result[k]) % dt == 0)))",
@@ -474,3 +474,26 @@ FLOOR_CEIL_SUMMARY = {
         "requires": [("in_range", "in_range_years(date)")], "modifies": [], "returns": "dt",
         "ensures": ["unit_boundary(self, result)", "us(result) >= us(date)", "us(result) - us(date) < unit_len_at(self, date)"]},
 }
+
+
+# ---- COMPLETENESS of the stepped enumeration (the five fixed-length units) ---------------------------------------------------
+# ghost pos_in(list, t): the index at which instant t was appended.  Invariant: every qualifying boundary between the first
+# candidate and the current one IS listed (at pos_in); hence on exit every qualifying boundary of [t0, t1) is listed.
+for _unit in ("second", "minute", "hour", "day", "week"):
+    L, PH = FIXED[_unit]
+    num = _NUMBER.get(_unit) or _NUMBER2[_unit]
+    _q = "us(x) %% %d == %d and (%s) %% dt == 0" % (L, PH, num % "x")
+    _listed = "0 <= pos_in(%s, x) < len(%s) and %s[pos_in(%s, x)] == x"
+    CONTRACTS["d3_time.d3_time_interval.range@%s_skip_complete" % _unit] = dict(
+        props=["C17", "C16"], inline=True, setup=interval_setup(_unit), func_alias="d3_time.d3_time_interval.range", heap=True,
+        params={"t0": "dt_ms", "t1": "dt", "dt": "int"}, requires=["in_range_us(t0)", "in_range_us(t1)", "2 <= dt <= 60"],
+        callee_contracts=_ceil_summary(_unit), slice_first=True,
+        slist_locals={"times": "slist:dt"}, modifies=["list.len.dt", "list.elems.dt", "list.$pos.dt"], allocates=["list"],
+        loops={0: {"modifies": ["list.len.dt", "list.elems.dt", "list.$pos.dt"], "locals": {"time": "dt"},
+                   "inv": [("list", "times is not None and len(times) >= 0"),
+                           ("boundary", "us(time) %% %d == %d and us(time) >= us(time__0)" % (L, PH)),
+                           ("every_qualifying_boundary_so_far_is_listed",
+                            "forall(lambda x: implies(%s and us(time__0) <= us(x) < us(time) and us(x) < us(t1), %s), 'dt')"
+                            % (_q, _listed % (("times",) * 4)))]}},
+        ensures=[("every_qualifying_boundary_in_range_is_listed",
+                  "forall(lambda x: implies(%s and us(t0) <= us(x) < us(t1), %s), 'dt')" % (_q, _listed % (("result",) * 4)))])
